@@ -13,9 +13,9 @@ ID = 'C12'
 LEVEL = 'exploration'
 INCLUDE = spaces.C02_SIX + ['n_geos_max', 'n_pretest_max']
 RULE = ('Engine A (metamorphic): every base case of DEV(3,d) u DEV(4,d) (d = 1 | 2; + hand-picked 2-deviation cases in '
-        'quick), both searches, is re-run under 11 presentations: 3 row permutations (reverse, rotation, interleave), '
+        'quick), both searches, is re-run under 14 presentations: 3 row permutations (reverse, rotation, interleave), '
         '3 date offsets (+1 d, -400 d, +3653 d), IDs int<->str, 2 renamings that reverse the lexicographic order '
-        '(eligibility renamed alike), scale c in {2^-3, 2, 2^10} with the budget range scaled alike. Oracle: same designs '
+        '(eligibility renamed alike), scale c in {2^-20, 2^-3, 2, 2^10, 2^30} with the budget range scaled alike. Oracle: same designs '
         'after mapping IDs back (groups, verdicts, rounded correlation; impact and last score entry equal, or scaled '
         'by c / 1/c; unchanged last entry when the exhaustive search has a budget range; 1e-7 relative under scaling). '
         'A mismatch is only reported when the base result has no score tie within tolerance at the differing positions. '
@@ -143,6 +143,8 @@ def run_case(case):
         ('scale-2^-3', dict(scale=0.125)),
         ('scale-2', dict(scale=2.0)),
         ('scale-2^10', dict(scale=1024.0)),
+        ('scale-2^-20', dict(scale=2.0 ** -20)),
+        ('scale-2^30', dict(scale=2.0 ** 30)),
     ]
     for name, kw in variants:
         c = kw.get('scale', 1.0)
